@@ -95,12 +95,15 @@ type Gen struct {
 	// feature knobs (C21 / C14 reuse the generator with other weights)
 	Errors float64 // probability of a deliberately ill-typed operation
 	Plant  bool    // also produce the recorded defect classes
-	// per closure frame: may `defer` be used (see checks/C15.md, defer-ok-exception)
+	// per closure frame: has `defer` been used already (at most one per frame, to
+	// keep callbacks spread over frames)
 	deferOK []bool
 }
 
+// defer may be used in every kind of frame, loop and try bodies included
+// (the class defer-ok-exception is fixed: checks/C15.fixes/defer-ok-exception.diff)
 func (g *Gen) canDefer() bool {
-	return g.Plant || (len(g.deferOK) > 0 && g.deferOK[len(g.deferOK)-1])
+	return g.Plant || len(g.deferOK) == 0 || g.deferOK[len(g.deferOK)-1] || g.p(0.5)
 }
 
 func NewGen(r *rand.Rand) *Gen {
@@ -629,13 +632,13 @@ func (g *Gen) lambda(sc *scope, d int, withSig bool) (ELam, *FnInfo) {
 // the body of a special command's block: a closure body, but loops stay visible
 func (g *Gen) block(sc *scope, d int) Chunk { return g.blockD(sc, d, true) }
 
-// blockD: deferOK = false for the blocks whose caller inspects the result
-// (loop bodies, try body, finally)
-func (g *Gen) blockD(sc *scope, d int, deferOK bool) Chunk {
+// blockD: the blocks whose caller inspects the result of the call (loop bodies,
+// try body, finally) pass false; they use defer as freely as the others
+func (g *Gen) blockD(sc *scope, d int, _ bool) Chunk {
 	body := g.newScope(sc)
 	body.isBody = true
 	g.inFn++
-	g.deferOK = append(g.deferOK, deferOK)
+	g.deferOK = append(g.deferOK, true)
 	c := g.chunk(body, d+1, 1+g.n(3))
 	g.deferOK = g.deferOK[:len(g.deferOK)-1]
 	g.inFn--
